@@ -242,17 +242,17 @@ theorem Builder.run_eq_none_iff (b : Builder) (cs : List Setter) :
 /-! ### `CacheD::new` -/
 
 theorem cachedNew_eq_none_iff (b : Builder) (seeds : List Nat) :
-    cachedNew b seeds = none ↔ ¬ (0 < b.counters ∧ 1 < b.shards ∧ isPow2 b.shards = true) := by
+    cachedNew b seeds = none ↔ ¬ (0 < b.counters ∧ 0 < b.shards ∧ isPow2 b.shards = true) := by
   unfold cachedNew
   split <;> simp_all
 
 theorem cachedNew_of_ok (b : Builder) (seeds : List Nat)
-    (h : 0 < b.counters ∧ 1 < b.shards ∧ isPow2 b.shards = true) :
+    (h : 0 < b.counters ∧ 0 < b.shards ∧ isPow2 b.shards = true) :
     cachedNew b seeds = some
       { cmdCap := b.cmd, ttlShards := b.shards, poolBuffers := b.pool, bufCap := b.buf, rows := seeds.length,
         rowBytes := nextPower2 b.counters / 2, resetAt := b.counters, maxWeight := b.cacheWeight } := by
   unfold cachedNew
-  have h' : b.counters > 0 ∧ b.shards > 1 ∧ isPow2 b.shards = true := h
+  have h' : b.counters > 0 ∧ b.shards > 0 ∧ isPow2 b.shards = true := h
   simp only [h', and_self, if_true, TinyLFU.new, FreqCounter.new, List.length_map]
 
 theorem one_le_half_nextPower2 (c : Nat) : 1 ≤ nextPower2 c / 2 := by
